@@ -560,13 +560,13 @@ pub fn cmd_gen(args: &[String]) -> i32 {
         "c13" => gen_c13(&mut sink, tier, seed),
         #[cfg(feature = "full")]
         "c17" => {
-            let n = if tier == "thorough" { 300 } else { 40 };
+            let n = if tier == "thorough" { 1200 } else { 40 };
             let mut rng = StdRng::seed_from_u64(seed ^ 0xc17);
             crate::sfam::exercise_all(&mut rng, &mut sink, n, "all");
         }
         #[cfg(feature = "full")]
         "c18" => {
-            let n = if tier == "thorough" { 400 } else { 50 };
+            let n = if tier == "thorough" { 3000 } else { 50 };
             let mut rng = StdRng::seed_from_u64(seed ^ 0xc18);
             crate::sbridge::both_all(&mut rng, &mut sink, n);
         }
